@@ -4,6 +4,7 @@ import AskarModel.Model.Store
 import AskarModel.Model.Session
 import AskarModel.Model.Fault
 import AskarModel.Model.Like
+import AskarModel.Model.WqlJson
 
 open Lean Askar Askar.Wql Askar.Store
 
@@ -42,7 +43,17 @@ partial def parseFilter (j : Json) : Query String :=
     | _ => default
   | _ => default
 
-def filterOpt (j : Json) (k : String) : Option (Query String) := (getD? j k).map parseFilter
+/-- `"fj": true` sends the filter through its JSON form, as the harness does on the real code
+    (`TagFilter::to_string` then `TagFilter::from_str`): the filter used is what parses back. -/
+def filterRoute (j : Json) (k : String) : Except String (Option (Query String)) :=
+  match (getD? j k).map parseFilter with
+  | none => .ok none
+  | some q => if bool! j "fj" then (jsonRoute q).map some else .ok (some q)
+
+def filterOpt (j : Json) (k : String) : Option (Query String) :=
+  match filterRoute j k with
+  | .ok f => f
+  | .error _ => none
 
 def tagLt (a b : Tag) : Bool :=
   -- canonical order used by both sides: (plain, name bytes, value bytes)
@@ -140,6 +151,8 @@ def sessionlessScan (st : St) (j : Json) : St × Json :=
     | _ => (st, jerr "BadOp")
 
 def stepOp (st : St) (j : Json) : St × Json :=
+  -- a filter that does not parse back: `from_str` fails with `err_map!("Error parsing tag query")` = Input
+  if !(filterRoute j "f").toBool then (st, jerr Err.input.name) else
   let op := str! j "op"
   let i := nat! j "s"
   match op with
